@@ -31,19 +31,23 @@ func GetFilesWithFilter(codeDir string, filter func(path string) bool) []string 
 	}
 
 	_ = filepath.Walk(codeDir, func(path string, fi os.FileInfo, err error) error {
+		// the patterns of the ignore file, and the fixture directory name, are relative to the analysed directory
+		rel, relErr := filepath.Rel(codeDir, path)
+		if relErr != nil {
+			rel = path
+		}
+
 		if gitIgnore != nil {
-			// the patterns of the ignore file are relative to the directory it lies in
-			rel, relErr := filepath.Rel(codeDir, path)
-			if relErr != nil {
-				rel = path
-			}
 			if gitIgnore.MatchesPath(rel) {
 				return nil
 			}
 		}
 
-		if strings.Contains(path, "testData") {
-			return nil
+		// fixture directories called testData are left out: a whole path segment, LatestDataTest.java is a source file
+		for _, segment := range strings.Split(filepath.ToSlash(rel), "/") {
+			if segment == "testData" {
+				return nil
+			}
 		}
 
 		// only files are listed: a directory may carry a selected extension too (.gradle, generated.java)
